@@ -10,10 +10,18 @@
   3. the seed sets on which the model fails are replayed on the REAL run_instantiation_pass, together with
      generated contexts (1-4 custom nodes, used twice, inside a user graph called twice, comparison inside Clip
      inside Iterate); TLC (spec/InstantiationTrace.tla) judges Ok/Err, the graphs and names of the result against
-     the model, and the values against per-node evaluation with each operation instantiated alone.
+     the model, and the values against per-node evaluation with each operation instantiated alone;
+  4. definition phase: programs over the library operations (checks/c08_defs.py: every comparison variant at every
+     string length 1..20 and some up to 128, Min / Max / Clip2K / Mux / Not / Or nested in each other, SortByIntegerKey
+     on tables of 1-4 columns of every pair of scalar types with the key in any position, sorted by two keys and
+     re-sorted, tables built from comparison results) go through the REAL builder, run_instantiation_pass and
+     evaluator (`instsem run`); TLC (spec/InstSemTrace.tla) evaluates the same programs with the TLA+ DEFINITIONS of
+     the operations (spec/InstSem.tla over BitOps / Relational) and judges totality (a node well-typed by the
+     definition is accepted and instantiated), the type and the value of every node.
 """
 import json, os, random
 from . import lib
+from . import c08_defs
 
 
 def differing(pa, pb):
@@ -150,16 +158,85 @@ def run(chk):
         c, r = by_id[cid], runs[cid]
         chk.sample({"shape": c["shape"], "ops": [ops[insts[x - 1]["op"] - 1]["name"] for x in c["roots"]],
                     "pass_ok": r["pass_ok"], "graphs_after": r["graphs_after"], "names": r["names"][:4]})
+    definition_phase(chk, workers)
     chk.assumptions += [
-        "the library's definition of a custom operation = that operation instantiated alone and evaluated (SimpleEvaluator has no Custom arm)",
+        "mixed-context phase: the reference value of a custom operation = that operation instantiated alone and evaluated (SimpleEvaluator has no Custom arm); "
+        "definition phase: comparisons, Min, Max, Clip2K, Mux (bits), Not, Or, SortByIntegerKey are judged against their TLA+ definitions (InstSem.tla); "
+        "fixed-point / approximation operations only against the instantiated-alone reference",
         "operations and parameter values are those of the grid in harness/src/bin/inline.rs op_grid (every struct field varied, 2-3 values, 2 argument types)",
         "large dependency closures are explored by the pass model in one fixed order, small ones in every order",
     ]
 
 
+def _short(x, n=400):
+    t = json.dumps(x)
+    return x if len(t) <= n else t[:n] + "..."
+
+
+def definition_phase(chk, workers):
+    """Programs over library custom operations, judged by TLC against the TLA+ definitions of the operations."""
+    cases = c08_defs.cases(chk.seed, chk.tier)
+    cpath, rpath = chk.path("sem_cases.ndjson"), chk.path("sem_runs.ndjson")
+    lib.write_ndjson(cpath, cases)
+    lib.harness(["run", cpath, rpath], binary="instsem", timeout=3000)
+    recs = {r["id"]: r for r in lib.read_ndjson(rpath)}
+    if len(recs) != len(cases):
+        raise lib.ToolError("instsem wrote %d of %d records" % (len(recs), len(cases)))
+    chk.traces += len(recs)
+    res = lib.tlc("InstSemTrace", "MC_InstSemTrace.cfg", env={"C08_SEM": rpath}, workers=workers,
+                  timeout=900 if chk.tier == "quick" else 2400, extra=["-continue"], coverage=False)
+    chk.add_tlc(res, "definitions")
+    fails = lib.printed_json(res, "SEMFAIL")
+    if not res.ok and not fails:
+        raise lib.ToolError("InstSemTrace failed without a SEMFAIL record:\n" + res.trace[:3000])
+    by_id = {c["id"]: c for c in cases}
+    for fl in fails:
+        c, r = by_id[fl["id"]], recs[fl["id"]]
+        if fl["class"].startswith("harness"):
+            raise lib.ToolError("definition phase, case %s: %s %s" % (fl["id"], fl["class"], fl.get("info")))
+        nd = c["nodes"][fl["node"] - 1] if fl.get("node") else None
+        fam = nd["fam"] if nd and nd["k"] == "op" else "+".join(sorted({n["fam"] for n in c["nodes"] if n["k"] == "op"}))
+        sig = {"phase": "definition", "op": fam, "class": fl["class"]}
+        chk.violation(sig, {"class": fl["class"], "node": fl.get("node"), "operation": nd, "info": _short(fl.get("info")),
+                            "argument_types": [r["types"][a - 1] for a in nd["args"]] if nd and r["built"] else None,
+                            "program": c["nodes"], "wrap": c["wrap"], "harness": "instsem run <cases> <out>", "sem_case": c})
+    skipped = lib.printed_json(res, "SEMSKIP")
+    st = {}
+    for r in recs.values():
+        k = "%s:%s" % (r["cls"], "ok" if r["pass_ok"] else ("rejected" if not r["built"] else "pass-err"))
+        st[k] = st.get(k, 0) + 1
+    chk.note("definition_programs", len(cases))
+    chk.note("definition_programs_by_class_and_outcome", st)
+    chk.note("definition_programs_not_judged_ill_typed_by_definition", len(skipped))
+    chk.note("definition_nodes_judged", sum(len(r["nodes"]) * len(r["samples"]) for r in recs.values() if r["pass_ok"]))
+    ws = sorted({n["t"]["sh"][-1] for c in cases if c["cls"] == "bits" for n in c["nodes"] if n["k"] == "in"})
+    chk.note("definition_string_lengths", ws)
+    chk.note("definition_operation_uses", dict(sorted(
+        (f, sum(1 for c in cases for n in c["nodes"] if n["k"] == "op" and n["fam"] == f))
+        for f in {n["fam"] for c in cases for n in c["nodes"] if n["k"] == "op"})))
+    for c in cases:
+        if c["cls"] == "mixed":
+            r = recs[c["id"]]
+            chk.sample({"phase": "definition", "program": [(n["fam"] or n["k"]) + str(n["args"]) for n in c["nodes"]],
+                        "types": [json.dumps(t) for t in r["types"]][:4], "pass_ok": r["pass_ok"]})
+            break
+
+
 def replay(path):
     """Re-executes one recorded violation against /repo (no TLC): prints what run_instantiation_pass does now."""
     v = json.load(open(path))
+    if v["replay"].get("sem_case"):
+        work = os.path.join(lib.WORK, "C08")
+        os.makedirs(work, exist_ok=True)
+        cp, op = os.path.join(work, "replay_sem_case.ndjson"), os.path.join(work, "replay_sem_out.ndjson")
+        lib.write_ndjson(cp, [v["replay"]["sem_case"]])
+        lib.harness(["run", cp, op], binary="instsem")
+        r = lib.read_ndjson(op)[0]
+        res = lib.tlc("InstSemTrace", "MC_InstSemTrace.cfg", env={"C08_SEM": op}, workers=1, timeout=300, extra=["-continue"], coverage=False)
+        fails = lib.printed_json(res, "SEMFAIL")
+        print(json.dumps({"built": r["built"], "rejected_node": r["rej"], "pass_ok": r["pass_ok"], "err": r["err"],
+                          "verdict_of_InstSemTrace": [{"class": f["class"], "node": f["node"]} for f in fails]}))
+        return 1 if fails else 0
     case = v["replay"].get("case")
     if not case:
         print("model violation, re-run: bin/check C08 quick")
